@@ -390,7 +390,7 @@ theorem keeps_executePackage (w : World) (p : Package) : Keeps w (w.executePacka
   | replace =>
     simp only; unfold executeReplace
     simp only
-    generalize ((w.packageOrders p).zip _) = zs
+    generalize (((w.packageOrders p).filter fun oid => (w.order! oid).status ≠ some .executionComplete).map fun oid => (oid, (w.order! oid).ud.newPrice)) = zs
     have := keeps_foldl_pair (replaceStep p) (fun acc pr => keeps_replaceStep p acc pr) zs (w, 0)
     generalize zs.foldl (replaceStep p) (w, 0) = r at this
     obtain ⟨w1, failed⟩ := r
